@@ -133,3 +133,47 @@ def blake2_g(va, vb, vc, vd, x, y):
     vc = (vc + vd) & M64
     vb = _rotr(vb ^ vc, 63)
     return va, vb, vc, vd
+
+
+# Byte layouts of the precompile inputs / outputs, written from the EIPs (not from the source):
+# ('Range', a, b) = bytes a..b, ('RangeTo', b) = ..b, ('RangeFrom', a) = a.., ('at', i) = byte i read,
+# ('at=', i) = byte i written, ('switch-at', i, values) = decision on byte i, ('pad', fn, n) = padded /
+# cut to n bytes, ('offset', fn, n) = field starting at byte n, ('split_at', n).
+LAYOUTS = {
+    # Yellow Paper appendix E.1: h = d[0..32], v = d[32..64] (27 or 28 as a 256-bit number: bytes
+    # 32..63 zero, byte 63 in {27, 28}), r||s = d[64..128]; input right-padded to 128 bytes
+    'secp256k1::ec_recover_run': [('Range', 0, 32), ('Range', 32, 63), ('Range', 64, 128), ('at', 63), ('bin', 'Sub', 63, 27),
+                                  ('pad', 'right_pad', 128), ('switch-at', 63, (27, 28))],
+    # address = low 20 bytes of keccak(uncompressed key without its 0x04 tag), left-padded to 32
+    'secp256k1::secp256k1::ecrecover': [('RangeFrom', 1), ('RangeTo', 12)],
+    # RIPEMD-160 digest (20 bytes) left-padded to 32
+    'hash::ripemd160_run': [('RangeFrom', 12)],
+    # EIP-196: points are (x, y), 32 bytes each; ADD takes two points (input padded to 128), MUL a
+    # point and a 32-byte scalar (padded to 96); the result point is written as x || y
+    'bn128::read_fq': [('RangeTo', 32)],
+    'bn128::read_point': [('Range', 0, 32), ('Range', 32, 64)],
+    'bn128::run_add': [('RangeFrom', 32), ('RangeFrom', 64), ('RangeTo', 32), ('RangeTo', 64), ('pad', 'right_pad', 128)],
+    'bn128::run_mul': [('Range', 64, 96), ('RangeFrom', 32), ('RangeTo', 32), ('RangeTo', 64), ('pad', 'right_pad', 96)],
+    # EIP-4844: versioned_hash[0..32] z[32..64] y[64..96] commitment[96..144] proof[144..192];
+    # versioned hash = sha256(commitment) with byte 0 replaced by the version
+    'kzg_point_evaluation::run': [('Range', 32, 64), ('Range', 64, 96), ('Range', 96, 144), ('Range', 144, 192), ('RangeTo', 32)],
+    'kzg_point_evaluation::kzg_to_versioned_hash': [('at=', 0)],
+    'kzg_point_evaluation::as_bytes32': [('pad', 'as_array', 32)],
+    'kzg_point_evaluation::as_bytes48': [('pad', 'as_array', 48)],
+    # EIP-198: three 32-byte big-endian lengths at 0, 32, 64; operands from byte 96; the exponent
+    # head is the first min(32, exp_len) bytes of the exponent, left-padded to 32
+    'modexp::run_inner': [('RangeFrom', 96), ('offset', 'right_pad_with_offset', 0), ('offset', 'right_pad_with_offset', 32),
+                          ('offset', 'right_pad_with_offset', 64), ('pad', 'left_pad', 32), ('pad', 'right_pad_with_offset', 32)],
+    # EIP-152 (the words are decided in R6)
+    'blake2::run': [('RangeFull',), ('RangeTo', 4), ('switch-at', 212, (0, 1))],
+    # EIP-2537: an Fp element is 64 bytes (16 zero bytes + 48), a G1 point 2 x 64, a G2 point 4 x 64
+    'bls12_381::g1::encode_g1_point': [('RangeFrom', 64), ('RangeTo', 64)],
+    'bls12_381::g1::extract_g1_input': [('Range', 64, 128), ('RangeTo', 64)],
+    'bls12_381::g1_add::g1_add': [('RangeFrom', 128), ('RangeTo', 128)],
+    'bls12_381::g2::encode_g2_point': [('RangeTo', 64)],
+    'bls12_381::g2::extract_g2_input': [('at', 0), ('at', 1), ('at', 2), ('at', 3)],
+    'bls12_381::g2_add::g2_add': [('RangeFrom', 256), ('RangeTo', 256)],
+    'bls12_381::map_fp2_to_g2::map_fp2_to_g2': [('Range', 64, 128), ('RangeTo', 64)],
+    'bls12_381::utils::fp_to_bytes': [('split_at', 16)],
+    'bls12_381::utils::remove_padding': [('split_at', 16)],
+}
